@@ -1169,6 +1169,8 @@ FRAGMENTS = {   # hunk-header code fragments (function/class context lines), per
     "ruby": ["class Foo < Bar", "  def main(argv = nil)"],
     "sh": ["foo() {"],
     "make": ["all: main.o util.o"],
+    # names that map to no syntax (unknown extension, short extensionless name): the default language
+    "plain": ["def not_code(x): return \"s\" # c", "pub fn compute(value: u32) -> String {", "class Foo(Bar):"],
 }
 UNBALANCED = {  # a last line that leaves the parser inside a construct
     "rust": "/* an open comment", "c": "/* an open comment", "cpp": "/* an open comment",
@@ -1248,7 +1250,7 @@ def section_rows(outb, path):
     """Raw rows of stdout from the file header row of `path` (its visible text is exactly the path) on."""
     raw = outb.split(b"\n")
     dec = decode(outb)
-    idx = [i for i, r in enumerate(dec) if row_text(r).strip() == path]
+    idx = [i for i, r in enumerate(dec) if row_text(r).strip() in (path, "added: " + path)]
     if not idx:
         return None
     return raw[idx[0]:]
@@ -1259,7 +1261,7 @@ def fg_cells(outb, bg, start_path=None):
     dec = decode(outb)
     start = 0
     if start_path is not None:
-        idx = [i for i, r in enumerate(dec) if row_text(r).strip() == start_path]
+        idx = [i for i, r in enumerate(dec) if row_text(r).strip() in (start_path, "added: " + start_path)]
         start = idx[0] if idx else 0
     out = []
     for r in dec[start:]:
@@ -1317,6 +1319,8 @@ def lifetime_oracles(ctx, rep):
     for _ in range(ctx.n(60, 1200)):
         tl = rng.choice(sorted(FRAGMENTS))
         tname = pick_name(rng, tl, "qzxa")
+        if tl == "plain" and rng.random() < 0.8:
+            tname = rng.choice(["qzxa.zzq", "qzxa", "qz", "qzxa.qqq"])
         tpath = rng.choice(["", "src/"]) + tname
         fragment = rng.choice(FRAGMENTS[tl])
         hunks = []
@@ -1326,14 +1330,17 @@ def lifetime_oracles(ctx, rep):
             h[0] = h[0].split(" @@")[0] + " @@ " + fragment
             hunks += h
             start += 40
-        tsec = gen_file_section(rng, tl, tpath, tpath) + hunks
+        tmode = "add" if rng.random() < 0.2 else "modify"   # `--- /dev/null` + name as a later section
+        if tmode == "add":
+            hunks = ["@@ -0,0 +1,3 @@ " + fragment] + ["+" + x for x in rng.sample(LANGS[tl]["lines"], 3)]
+        tsec = gen_file_section(rng, tl, tpath, tpath, tmode) + hunks
         neigh, msecs, kinds = [], [], []
         for _k in range(rng.randint(1, 3)):
             lines, ms, kind = gen_neighbour(rng, langs, {tname})
             neigh += lines
             msecs += ms
             kinds.append(kind)
-        msecs.append((tpath, tpath, ".".join(hunk_code(h) for h in split_hunks(hunks))))
+        msecs.append((None if tmode == "add" else tpath, tpath, ".".join(hunk_code(h) for h in split_hunks(hunks))))
         body_diff = gen_file_section(rng, tl, tpath, tpath) + ["@@ -1,2 +1,2 @@", " " + fragment, "-a", "+b"]
         th = rng.choice(themes["dark"])
         tc = rng.choice(["always", "never"])
@@ -1351,7 +1358,7 @@ def lifetime_oracles(ctx, rep):
         bgs = {name: bg for bg, (name, _, _) in meta.items()}
         mk = lambda lines: ("\n".join(lines) + "\n").encode()
         runs = [(a, mk(tsec), None), (a, mk(neigh + tsec), None), (args + cargs, mk(neigh + body_diff), None)]
-        jobs.append(dict(tpath=tpath, fragment=fragment, neighbours=kinds, runs=runs, msecs=msecs, lang=tl,
+        jobs.append(dict(tpath=tpath, fragment=fragment, neighbours=kinds, runs=runs, msecs=msecs, lang=tl + ("+added" if tmode == "add" else ""),
                          hh_bg=bgs["hunk_header"], zero_bg=bgs["zero"], default=use_default))
     # model predictions (same sections as events)
     names = sorted({n for j in jobs for m, p, _ in j["msecs"] for n in (m, p) if n})
@@ -1379,7 +1386,7 @@ def lifetime_oracles(ctx, rep):
         if any(r[0] != 0 for r in res):
             rep.count("binary:nonzero-exit")
             continue
-        other_lang = any(":" in k and k.split(":")[1].split(">")[-1] != j["lang"] for k in j["neighbours"])
+        other_lang = any(":" in k and k.split(":")[1].split(">")[-1] != j["lang"].split("+")[0] for k in j["neighbours"])
         rep.case(key=("b7", sha(j["runs"][1][1]), tuple(j["runs"][1][0])), nontrivial=other_lang,
                  sample=dict(op="binary-section-after-neighbours", target=j["tpath"], neighbours=j["neighbours"],
                              fragment=j["fragment"], args=j["runs"][0][0]))
@@ -1393,6 +1400,137 @@ def lifetime_oracles(ctx, rep):
             rep.corr_case("superimpose.lifetime", m.startswith("ok") and ((not model_ok) or not dependent),
                           dict(request=reqs[n][:400], model=m[:400], binary_failures=probe.v))
         confirm(ctx, rep, j["runs"], res, lambda r, sink, j=j: eval_b7(r, sink, j))
+
+
+
+# --------------------------------------------------------------------------- B8: side-by-side and `normal …` minus styles
+
+def run_spec(ctx, spec):
+    """(args, stdin, files): files are created in a scratch directory that becomes the cwd; a file
+    named `~/.gitconfig` makes that directory HOME and lets delta read it (no --no-gitconfig)."""
+    args, stdin, files = spec
+    files = files or {}
+    if not files:
+        return run_case(ctx, args, stdin, None)
+    d = with_files({k.replace("~/", ""): v for k, v in files.items()})
+    try:
+        if "~/.gitconfig" in files:
+            return ctx.run_delta(list(args), stdin, env={"HOME": d}, cwd=d)
+        return run_case(ctx, args, stdin, d)
+    finally:
+        shutil.rmtree(d, ignore_errors=True)
+
+
+SBS_DIFF = """diff --git a/src/qzxa.rs b/src/qzxa.rs
+index 1111111..2222222 100644
+--- a/src/qzxa.rs
++++ b/src/qzxa.rs
+@@ -10,6 +10,6 @@ pub fn compute(value: u32) -> String {
+     let mut x: u32 = 42; // answer
+-    println!("hello {}", x);
+-    if x > 10 && y != "a" { return None; }
++    println!("goodbye {}", x);
++    if x > 11 && y != "b" { return Some(1); }
+     let s = 'c'; let t = 1.5e3;
+-/* block */ struct Foo<'a> { name: &'a str }
++/* block */ struct Bar<'a> { name: &'a str }
+ }
+"""
+
+
+def sbs_oracles(ctx, rep):
+    rng = ctx.rng
+    themes = list_themes(ctx)
+    hook_free = True
+    mdl = ctx.model("drv_superimpose") if ctx.drivers_ok else None
+    # --- correspondence: which of the two styles ask for syntax after set_options (real: --show-config)
+    vals = ["normal 52", "normal 88", "normal", "red 52", "syntax 52", "normal bold 52"]
+    cases = []
+    for sbs in (0, 1):
+        for sup in ([], ["minus_style"], ["minus_emph_style"], ["minus_style", "minus_emph_style"]):
+            for _ in range(ctx.n(2, 6)):
+                cases.append((sbs, sup, rng.choice(vals), rng.choice(vals)))
+    def show(c):
+        sbs, sup, v1, v2 = c
+        args = (["-s"] if sbs else []) + (["--minus-style", v1] if "minus_style" in sup else []) + \
+            (["--minus-emph-style", v2] if "minus_emph_style" in sup else []) + ["--show-config"]
+        rc, out, _ = run_case(ctx, args, b"")
+        txt = re.sub(r"\x1b\[[0-9;]*m", "", out.decode("utf-8", "replace"))
+        got = {}
+        for ln in txt.splitlines():
+            m = re.match(r"\s*(minus-style|minus-emph-style)\s*=\s*(.*)$", ln)
+            if m:
+                got[m.group(1).replace("-", "_")] = m.group(2).strip()
+        return got
+    shown = parallel_map(show, cases)
+    reqs, meta = [], []
+    for c in cases:
+        sbs, sup, v1, v2 = c
+        for name, v in (("minus_style", v1), ("minus_emph_style", v2)):
+            value = v if name in sup else "normal auto"     # the clap default of both options
+            reqs.append("superimpose.sbs_rewrite %d %s %s %s" % (sbs, ",".join(sup) or "-", hx(name), hx(value)))
+            meta.append((c, name, value))
+    model = mdl.ask(reqs) if mdl else [None] * len(reqs)
+    for (c, name, value), rq, m in zip(meta, reqs, model):
+        got = shown[cases.index(c)].get(name)
+        rep.case(key=rq, nontrivial=bool(c[0]) and len(c[1]) == 1)
+        rep.count("sbs_rewrite")
+        if m is None or got is None:
+            continue
+        mv = unhxs(m.split()[1]) if m.startswith("ok ") else "?"
+        agree = m.startswith("ok ") and (mv.split(" ")[0] == "syntax") == (got.split(" ")[0] == "syntax")
+        rep.corr_case("superimpose.sbs_rewrite", agree, dict(request=rq, scenario=c, model=mv, shown=got))
+        # direct: a `normal …` style given on the command line is shown as given
+        if name in c[1] and value.startswith("normal") and got.split(" ")[0] == "syntax":
+            rep.violation("sbs:command-line-normal-style-gets-syntax",
+                          "%s given on the command line as %r is turned into %r (side-by-side=%d, also given: %s)" % (
+                              name, value, got, c[0], c[1]),
+                          dict(oracle="B8c", scenario=list(c), option=name, shown=got))
+    # --- binary: text painted by a `normal …` style is identical under every theme
+    jobs = []
+    scenarios = [("only-minus-style", ["--minus-style", "normal 52"], {("idx", 52): ("minus", False, None)}, None),
+                 ("only-minus-emph-style", ["--minus-emph-style", "normal 88"], {("idx", 88): ("minus_emph", False, None)}, None),
+                 ("both", ["--minus-style", "normal 52", "--minus-emph-style", "normal 88"],
+                  {("idx", 52): ("minus", False, None), ("idx", 88): ("minus_emph", False, None)}, None),
+                 ("neither", [], {}, None),
+                 ("gitconfig-minus-style", [], {("idx", 52): ("minus", False, None)}, "[delta]\n    minus-style = normal 52\n"),
+                 ("gitconfig-both", [], {("idx", 52): ("minus", False, None), ("idx", 88): ("minus_emph", False, None)},
+                  "[delta]\n    minus-style = normal 52\n    minus-emph-style = normal 88\n    side-by-side = true\n")]
+    for rnd in range(ctx.n(1, 6)):
+        for name, sargs, meta_bg, gitconfig in scenarios:
+            for layout in (["--side-by-side"], []):
+                ths = rng.sample(themes["dark"], ctx.n(2, 4)) + ["none"]
+                tc = rng.choice(["always", "never"])
+                extra = (["-n"] if rng.random() < 0.3 else []) + (["--keep-plus-minus-markers"] if rng.random() < 0.3 else [])
+                files = {"~/.gitconfig": gitconfig} if gitconfig else None
+                runs = [(["--dark", "--syntax-theme", t, "--true-color", tc, "--width", "160"] + layout + extra + sargs,
+                         SBS_DIFF.encode(), files) for t in ths]
+                jobs.append(dict(name=name + ("/sbs" if layout else "/unified"), labels=ths, runs=runs, meta=meta_bg))
+    flat = [r for j in jobs for r in j["runs"]]
+    results = parallel_map(lambda r: run_spec(ctx, r), flat)
+    pos = 0
+    for j in jobs:
+        res = results[pos:pos + len(j["runs"])]
+        pos += len(j["runs"])
+        rep.count("sbs:" + j["name"])
+        if any(r[0] != 0 for r in res):
+            rep.count("binary:nonzero-exit")
+            continue
+        rep.case(key=("b8", j["name"], tuple(j["runs"][0][0])), nontrivial="sbs" in j["name"] and bool(j["meta"]),
+                 sample=dict(op="binary-sbs-normal-styles", scenario=j["name"], themes=j["labels"], args=j["runs"][0][0]))
+
+        def evaluate(res, sink, j=j):
+            check_theme_group(sink, [r[1] for r in res], j["labels"], j["meta"], False, j["runs"])
+        probe = Probe()
+        evaluate(res, probe)
+        if probe.v:
+            res2 = [run_spec(ctx, r) for r in j["runs"]]
+            p2 = Probe()
+            evaluate(res2, p2)
+            if p2.v:
+                evaluate(res2, rep)
+            else:
+                rep.count("binary:not-reproduced-on-rerun")
 
 
 
@@ -1418,6 +1556,7 @@ def run(ctx, rep):
     correspondence(ctx, rep)
     binary_oracles(ctx, rep)
     lifetime_oracles(ctx, rep)
+    sbs_oracles(ctx, rep)
 
 
 def replay(ctx, rep, obj):
@@ -1441,15 +1580,8 @@ def replay(ctx, rep, obj):
                 rep.violation(bad[0], bad[1], case)
         return
     if "runs" in case:
-        tmp, outs = [], []
-        try:
-            for r in case["runs"]:
-                d = with_files(r.get("files") or {})
-                tmp.append(d)
-                outs.append(run_case(ctx, r["args"], base64.b64decode(r["stdin_b64"]), d))
-        finally:
-            for d in tmp:
-                shutil.rmtree(d, ignore_errors=True)
+        outs = [run_spec(ctx, (r["args"], base64.b64decode(r["stdin_b64"]), r.get("files") or {"_": ""}))
+                for r in case["runs"]]
         runs = [(r["args"], base64.b64decode(r["stdin_b64"]), r.get("files")) for r in case["runs"]]
         rep.case(key=repr(case["runs"])[:500], nontrivial=True, sample=dict(oracle=oracle, args=case["runs"][0]["args"]))
         if oracle in ("B1", "B2", "B3"):
